@@ -382,7 +382,8 @@ class Gen:
             lines.insert(r.randint(0, len(lines)), deep)
             lines.append("after")
             return {"t": "fence", "ch": ch, "n": n, "info": info, "lines": lines, "indent": ind, "deep": deep, "close_extra": 0}
-        return {"t": "fence", "ch": ch, "n": n, "info": info, "lines": lines, "indent": ind, "close_extra": r.choice([0, 0, 0, 1, 2])}
+        return {"t": "fence", "ch": ch, "n": n, "info": info, "lines": lines, "indent": ind, "close_extra": r.choice([0, 0, 0, 1, 2]),
+                "close_trail": r.choice(["", "", "", "", "  ", "\t"])}  # white space after the closing fence is allowed
 
     def table(self) -> dict:
         r = self.r
@@ -628,7 +629,7 @@ class Ser:
             f = b["ch"] * b["n"]
             ind = " " * b.get("indent", 0)
             # the closing fence may be longer than the opening one
-            return X([ind + f + b["info"]] + [(ind + ln) if ln else "" for ln in b["lines"]] + [ind + f + b["ch"] * b.get("close_extra", 0)])
+            return X([ind + f + b["info"]] + [(ind + ln) if ln else "" for ln in b["lines"]] + [ind + f + b["ch"] * b.get("close_extra", 0) + b.get("close_trail", "")])
         if t == "icode":
             return X(["    " + ln for ln in b["lines"]])
         if t == "table":
